@@ -8,7 +8,7 @@ Extraction Language OCaml.
 Extraction "model.ml"
   default_cfg prof_none prof_WhatWg prof_WhatWgSortQuery prof_GoogleSafeBrowsing prof_Semantic
   pes_C0 pes_C0OrSpace pes_Fragment pes_Query pes_SpecialQuery pes_Path pes_UserInfo pes_Host
-  pes_LaxPath pes_LaxQuery pes_RepeatedQuery
+  pes_LaxPath pes_LaxQuery pes_RepeatedQuery pes_HostDecode
   RuneShouldBeEncoded RuneNotInSet isURLCodePoint pes_set pes_clear
   Parse ParseRef UrlParse history obs_pres obs_cres ProfileParse ProfileParseRef
   parseHost parseIPv4 parseIPv6 ipv6_parse IPv6String IPv4String parseOpaqueHost endsInANumber parseIPv4Number_nonempty
